@@ -20,6 +20,165 @@ var lazyInit = map[string]string{
 	"(*document.Document).getSectionProperties": "find-or-create of an EMPTY section-properties element: observable only as an empty <w:sectPr/>, which carries no setting",
 }
 
+// emptyFreshSectPr: v is a *SectionProperties allocated right here whose fields are never stored
+// (the literal &SectionProperties{}).
+func emptyFreshSectPr(p *Program, v ssa.Value) bool {
+	if mi, ok := v.(*ssa.MakeInterface); ok {
+		v = mi.X
+	}
+	al, ok := v.(*ssa.Alloc)
+	if !ok || !typeIs(al.Type(), pkgDoc, "SectionProperties") {
+		return false
+	}
+	if refs := al.Referrers(); refs != nil {
+		for _, u := range *refs {
+			if _, isFA := u.(*ssa.FieldAddr); isFA {
+				return false
+			}
+		}
+	}
+	return true
+}
+
+// appendedBodyElems: st is `X.Elements = append(X.Elements, e...)` on Body.Elements; returns the
+// appended values.
+func appendedBodyElems(p *Program, in ssa.Instruction) ([]ssa.Value, bool) {
+	st, ok := in.(*ssa.Store)
+	if !ok {
+		return nil, false
+	}
+	ch, _ := addrChain(st.Addr)
+	if len(ch) == 0 || !fieldIs(p, ch[len(ch)-1], pkgDoc, "Body", "Elements") {
+		return nil, false
+	}
+	if bodyStoreShape(p, st) != "append-at-end" {
+		return nil, false
+	}
+	ap := st.Val.(*ssa.Call)
+	if len(ap.Call.Args) < 2 {
+		return nil, false
+	}
+	return varargElems(ap.Call.Args[1]), true
+}
+
+// lazyOnlyWrites: every write fn makes through its parameters (itself or in callees) is the
+// find-or-create append of an EMPTY section-properties element to the body — the one effect
+// lazyInit exempts, whatever function the append statement happens to sit in.
+func lazyOnlyWrites(p *Program, ms *mutSummary, fn *ssa.Function, depth int) bool {
+	if depth > 4 || len(fn.Blocks) == 0 {
+		return false
+	}
+	if _, ok := lazyInit[shortName(fn)]; ok {
+		return true
+	}
+	isParam := func(v ssa.Value) bool {
+		for _, q := range fn.Params {
+			if v == ssa.Value(q) {
+				return true
+			}
+		}
+		return false
+	}
+	okAll, any := true, false
+	for _, w := range directWrites(fn) {
+		if allocBase(w.Target) != nil {
+			continue
+		}
+		roots := deepRootsAddr(p, w.Target)
+		through := false
+		for r := range roots {
+			if isParam(r) {
+				through = true
+			}
+		}
+		if !through {
+			continue
+		}
+		any = true
+		elems, ok := appendedBodyElems(p, w.In)
+		if !ok || len(elems) != 1 || !emptyFreshSectPr(p, elems[0]) {
+			okAll = false
+		}
+	}
+	allInstrs(fn, func(in ssa.Instruction) {
+		c, ok := in.(ssa.CallInstruction)
+		if !ok {
+			return
+		}
+		cal := staticCallee(c)
+		if cal == nil || !p.inModule(cal) {
+			return
+		}
+		writes := false
+		for _, sites := range ms.Params(cal) {
+			if len(sites) > 0 {
+				writes = true
+			}
+		}
+		if !writes {
+			return
+		}
+		any = true
+		if lazyOnlyWrites(p, ms, cal, depth+1) {
+			return
+		}
+		// a helper that appends the element it is handed: lazy when it is handed a fresh empty one
+		if k := appendsParamOnly(p, ms, cal); k >= 0 && k < len(c.Common().Args) && emptyFreshSectPr(p, c.Common().Args[k]) {
+			return
+		}
+		okAll = false
+	})
+	return any && okAll
+}
+
+// appendsParamOnly: cal's only write through its parameters is `b.Elements = append(b.Elements, q)`
+// with q its k-th parameter (no writing callees); returns k or -1.
+func appendsParamOnly(p *Program, ms *mutSummary, cal *ssa.Function) int {
+	if len(cal.Blocks) == 0 {
+		return -1
+	}
+	k := -1
+	for _, w := range directWrites(cal) {
+		if allocBase(w.Target) != nil {
+			continue
+		}
+		elems, ok := appendedBodyElems(p, w.In)
+		if !ok || len(elems) != 1 {
+			return -1
+		}
+		v := elems[0]
+		if mi, ok := v.(*ssa.MakeInterface); ok {
+			v = mi.X
+		}
+		found := -1
+		for i, q := range cal.Params {
+			if v == ssa.Value(q) {
+				found = i
+			}
+		}
+		if found < 0 || (k >= 0 && k != found) {
+			return -1
+		}
+		k = found
+	}
+	bad := false
+	allInstrs(cal, func(in ssa.Instruction) {
+		if c, ok := in.(ssa.CallInstruction); ok {
+			if c2 := staticCallee(c); c2 != nil && p.inModule(c2) {
+				for _, sites := range ms.Params(c2) {
+					if len(sites) > 0 {
+						bad = true
+					}
+				}
+			}
+		}
+	})
+	if bad {
+		return -1
+	}
+	return k
+}
+
 // atomicCallee (set by checkErrAtomicGroup): callees already shown to write only when they succeed.
 var atomicCallee map[*ssa.Function]bool
 
@@ -58,6 +217,11 @@ func receiverWrites(p *Program, ms *mutSummary, fn *ssa.Function, pi int) []ssa.
 				if _, lazy := lazyInit[shortName(s.Fn)]; !lazy {
 					real = true
 				}
+			}
+			if real && lazyOnlyWrites(p, ms, cal, 0) {
+				// the same find-or-create of an empty element, decomposed differently (the append sits in
+				// a helper that is handed the fresh, empty element)
+				real = false
 			}
 			if !real {
 				continue
@@ -2031,6 +2195,37 @@ func scansAllForSectPr(p *Program, fn *ssa.Function) bool {
 	return false
 }
 
+// sectScanBefore: fn searches all body elements for a section-properties element — in a loop of
+// its own, or through a finder helper whose call lies on every path to `at`.
+func sectScanBefore(p *Program, fn *ssa.Function, at ssa.Instruction) bool {
+	if scansAllForSectPr(p, fn) {
+		return true
+	}
+	ok := false
+	allInstrs(fn, func(in2 ssa.Instruction) {
+		if c, isC := in2.(*ssa.Call); isC && ssa.Instruction(c) != at {
+			if cal := staticCallee(c); cal != nil && p.inModule(cal) && scansAllForSectPr(p, cal) && mustPassThrough(fn, at, []ssa.Instruction{c}) {
+				ok = true
+			}
+		}
+	})
+	return ok
+}
+
+// staticCallSites: the static call instructions of fn in the module (sorted by position).
+func staticCallSites(p *Program, fn *ssa.Function) []ssa.CallInstruction {
+	var out []ssa.CallInstruction
+	for _, g := range p.ModFuncs() {
+		allInstrs(g, func(in ssa.Instruction) {
+			if c, ok := in.(ssa.CallInstruction); ok && staticCallee(c) == fn {
+				out = append(out, c)
+			}
+		})
+	}
+	sort.Slice(out, func(i, j int) bool { return out[i].Pos() < out[j].Pos() })
+	return out
+}
+
 func ruleSectPrSingleton(r *Run) {
 	p := r.P
 	reader := buildReaderModel(p)
@@ -2079,18 +2274,32 @@ func ruleSectPrSingleton(r *Run) {
 			if !isSect {
 				return
 			}
-			n++
-			ok2 := scansAllForSectPr(p, fn)
-			if !ok2 {
-				// a finder helper called before the append
-				allInstrs(fn, func(in2 ssa.Instruction) {
-					if c, ok := in2.(*ssa.Call); ok {
-						if cal := staticCallee(c); cal != nil && p.inModule(cal) && scansAllForSectPr(p, cal) && mustPassThrough(fn, st, []ssa.Instruction{c}) {
-							ok2 = true
+			ok2 := sectScanBefore(p, fn, st)
+			if !ok2 && fn.Parent() == nil {
+				// the append sits in a helper that is handed the element: the search is the business of
+				// whoever calls the helper — every call site must have searched first
+				sites := staticCallSites(p, fn)
+				if len(sites) > 0 {
+					for _, cs := range sites {
+						n++
+						okc := sectScanBefore(p, cs.Parent(), cs)
+						if !okc {
+							// one more level: a wrapper around the helper
+							up := staticCallSites(p, topLevel(cs.Parent()))
+							okc = len(up) > 0
+							for _, cs2 := range up {
+								if !sectScanBefore(p, cs2.Parent(), cs2) {
+									okc = false
+								}
+							}
 						}
+						r.Check("sectpr-singleton", shortName(topLevel(cs.Parent())), cs.Pos(), okc,
+							fmt.Sprintf("%s appends a section-properties element to the body through %s; it must first have searched ALL body elements for an existing one (range over Body.Elements with a test for *SectionProperties): %s", shortName(topLevel(cs.Parent())), shortName(fn), map[bool]string{true: "it does", false: "no such scan precedes the call — a document whose section properties are not the last element gets a second one, and page settings / header references set before are lost from the saved part"}[okc]))
 					}
-				})
+					return
+				}
 			}
+			n++
 			r.Check("sectpr-singleton", shortName(topLevel(fn)), st.Pos(), ok2,
 				fmt.Sprintf("%s appends a section-properties element to the body; it must first have searched ALL body elements for an existing one (range over Body.Elements with a test for *SectionProperties): %s", shortName(topLevel(fn)), map[bool]string{true: "it does", false: "no such scan precedes the append — a document whose section properties are not the last element gets a second one, and page settings / header references set before are lost from the saved part"}[ok2]))
 		})
